@@ -61,6 +61,9 @@ CHECKS = {
  "C08": ("exploration", "runtime monitor: canary files / environment / marker paths, an inotify watch on the canary directory and (thorough) strace of cmd/zygo -sandbox, while every name a sandboxed interpreter knows is invoked with hostile arguments",
          "Every global, macro, builtin, reserved word and compiler special form of a bare and a standard-setup sandbox (plus 40 names of outside-world primitives) is called with 24 argument shapes and through aliases, apply, map, eval, str2sym, macros and infix; value-level canaries (nonce in results, new globals, changed/created paths, environment sentinel), an in-process inotify watch and, in the thorough tier, the system calls of the real CLI under strace decide whether the outside world was reached.",
          "Outside world = files, processes, environment, exit, sockets; the monitors see the canary directory and the traced calls only.", "DESIGN.md §4.C08"),
+ "C20": ("exploration", "runtime monitor: repeated runs of each program in fresh interpreters at different positions of a process and in fresh processes; all observations (value, stdout, error text) must be identical",
+         "Hand-written programs around every map-walking conversion, the script corpus without file/time/random features and generated programs are each evaluated 8 (quick) / 20 (thorough) times in one process as the 1st..4th interpreter after unrelated interpreters, and in 2 / 5 fresh processes (new map iteration seeds); printed value, captured stdout and full error text are compared after normalising pointers and Go stack traces.",
+         "Determinism is observed, not proved: an order-dependence that shows up with probability p per run is caught with probability 1-(1-p)^(N+M-1); one recorded finding (script-declared types leak into later interpreters through the process-global registry).", "DESIGN.md §4.C20"),
 }
 
 NA_REASON = {}
